@@ -2,7 +2,7 @@
 # usage: verify_seed.sh <ID> [nosuite]  -- confirms a seeded change in its scratch worktree /tmp/seed_<ID>:
 # demo fails with the change, passes without it, existing suite passes with it. Copies the kept
 # files to /verif/seeded/<ID>/.
-ID="$1"; W=/tmp/seed_$ID; case "$ID" in *b) W=/tmp/seed2_${ID%b};; esac
+ID="$1"; W=/tmp/seed_$ID; case "$ID" in *b) W=/tmp/seed2_${ID%b};; *c) W=/tmp/seed3_${ID%c};; esac
 cd "$W" || exit 9
 git diff -- ciphercore-base/src > out/patch.verified.diff
 [ -s out/patch.verified.diff ] || { echo "$ID: no source change in worktree"; exit 9; }
